@@ -33,6 +33,11 @@ def interval_for(rnd, w, sg, shape):
     small = w == 8
     k = rnd.choice([0, 0, 1, -1, 2, -2, 3, 5]) if shape != "zero" else 0
     base = mn + k * M
+    if shape == "exact":
+        # width exactly 2^w, one less, one more (the boundary of "spans all the values of the type")
+        lo = base + (rnd.randint(0, M - 1) if small else rnd.choice([0, 1, 3, M - 1, M - 2]))
+        hi = lo + M + rnd.choice([0, 0, -1, 1])
+        return F(lo), F(hi)
     if shape in ("one", "zero"):
         if small:
             lo = base + rnd.randint(0, M - 2); hi = rnd.randint(lo, base + M - 1)
@@ -107,7 +112,7 @@ def gen_wrap_case(rnd, cid, dom=None, force=None):
     strict_ok = dom == "NNC"
     for i in range(n):
         if i in vars_:
-            shape = rnd.choice(["one", "zero", "straddle", "straddle", "straddle"])
+            shape = rnd.choice(["one", "zero", "straddle", "straddle", "straddle", "exact"])
             lo, hi = interval_for(rnd, w, sg, shape)
             unb = rnd.random() < 0.08
             ul = unb and rnd.random() < 0.5
